@@ -131,8 +131,11 @@ def generate(rng, tier, i):
     n_peaks = rng.choice([1, 1, 2, 2, 2, 3, 3, 4, 6])
     locs = sorted(lo + span * (0.08 + 0.84 * rng.random()) for _ in range(n_peaks))
     peaks = [{"shape": rng.choice(PEAK_NAMES), "loc": x, "width": span * 10 ** rng.uniform(-2.3, -1.0),
-              "area": 10 ** rng.uniform(0.0, 2.5) * span * 0.02, "fraction": rng.random()} for x in locs]
-    bkg = [rng.uniform(0, 5), rng.uniform(-1, 1) / span, (rng.uniform(-1, 1) / span**2) if rng.random() < 0.5 else 0.0]
+              "area": 10 ** rng.uniform(-2.0 if rng.random() < 0.3 else 0.0, 2.5) * span * 0.02,
+              "fraction": rng.random()} for x in locs]
+    curv = rng.random()
+    bkg = [rng.uniform(0, 5), rng.uniform(-1, 1) / span,
+           0.0 if curv < 0.35 else (rng.uniform(-1, 1) / span**2 if curv < 0.7 else rng.uniform(2, 30) / span**2)]
     truth = {"peaks": peaks, "bkg": bkg, "noise": 10 ** rng.uniform(-2.5, -0.3), "seed": rng.randrange(1 << 30)}
     # estimates: near the true locations, at the edges, outside the data
     est = []
@@ -216,7 +219,7 @@ def generate(rng, tier, i):
         "estimates": est, "windows": windows,
         "background": _gen_spec(rng, BKG_NAMES), "peak": _gen_spec(rng, PEAK_NAMES),
         "fit_parameters": fp, "fit_requirements": fr, "faults": faults,
-        "decompose": rng.random() < 0.3, "remove": rng.random() < 0.7,
+        "decompose": rng.random() < 0.6, "remove": rng.random() < 0.7,
     }
 
 
@@ -602,19 +605,24 @@ class FitEngine(Engine):
         if not (xs[0] <= popt["peak_loc"] <= xs[-1]):
             ctx.violate("success_req", f"[{where}] success but location {popt['peak_loc']} outside window "
                         f"data [{xs[0]}, {xs[-1]}]", kind="success:outside")
-        # AIC not worse than the background-only fit that preceded the returned full fit
-        bk = None
-        for j, cc in enumerate(calls):
-            if cc["full"] and cc.get("popt") and all(
-                    ref_fit.close(cc["popt"].get(n_, math.nan), popt[n_], rel=0, abs_=0) for n_ in popt):
-                if j > 0 and not calls[j - 1]["full"] and calls[j - 1].get("popt"):
-                    bk = calls[j - 1]["popt"]
-        if bk is not None and len(bk) == deg + 1:
-            bm = ref_fit.eval_background(deg, xs, bk)
-            _, _, _, baic = ref_fit.stats(xs, ys, vs, bm, deg + 1)
-            if baic < aic and not ref_fit.close(baic, aic):
-                ctx.violate("success_req", f"[{where}] success although the background-only fit has a "
-                            f"better AIC ({baic} < {aic})", kind="success:aic")
+        # AIC not worse than the background-only fit's.  The background models are linear in their
+        # parameters, so the background-only least-squares optimum is unique and can be computed
+        # independently (weighted polynomial fit); the library's own background fit, when it
+        # returns, converges to it.
+        bkg_failed = any((not cc["full"]) and cc["outcome"] in ("injected_failure", "real_failure")
+                         for cc in calls)
+        if not bkg_failed and len(xs) > deg + 1:
+            x0 = xs.mean()
+            try:
+                coef = np.polynomial.polynomial.polyfit(xs - x0, ys, deg, w=1 / np.sqrt(vs))
+                bm = np.polynomial.polynomial.polyval(xs - x0, coef)
+                _, _, _, baic = ref_fit.stats(xs, ys, vs, bm, deg + 1)
+            except Exception:  # noqa: BLE001
+                baic = math.inf
+            if baic < aic - 1e-6 * max(1.0, abs(aic)):
+                ctx.violate("success_req", f"[{where}] success although the background-only model "
+                            f"({['', 'linear', 'quadratic'][deg]}) fits better: AIC(bkg)={baic} < "
+                            f"AIC(bkg+peak)={aic}", kind="success:aic")
             ctx.count("background_aic_compared")
 
     def _run_plan(self, scn, ctx, da, x, y, var, R, windows, keymap, plan, singles):
